@@ -1,6 +1,7 @@
 import MoneroModel.Model.Block
 import MoneroModel.Model.AmountText
 import MoneroModel.Model.Address
+import MoneroModel.Model.Extra
 /-! # Model of the serde representations (feature `serde`) — C19
 
 A `Json` tree, the readers that `serde` / `serde_json` give to the primitive types and to *derived* `Deserialize`
@@ -457,6 +458,60 @@ def wfTx (t : Tx) : Prop :=
 def wfHeader (h : Header) : Prop :=
   h.major < U64 ∧ h.minor < U64 ∧ h.timestamp < U64 ∧ h.prev.length = 32 ∧ h.nonce < U32
 def wfBlock (b : Block) : Prop := wfHeader b.hdr ∧ wfTx b.miner ∧ (∀ h ∈ b.hashes, h.length = 32)
+
+/-! ## `PublicKey`, `SubField`, `ExtraField` (key.rs:268, transaction.rs:288-362) — derived impls, no attribute but `crate`
+
+`PublicKey { point: CompressedEdwardsY }`: curve25519-dalek writes the point as a tuple of 32 `u8` (a JSON array) and reads it
+with `deserialize_tuple(32, …)` — exactly 32 numbers, NO check that the bytes are a curve point (unlike `from_slice`).
+`SubField` has newtype variants (`{"Padding":5}`: the content is the payload itself) and a tuple variant
+(`{"MergeMining":[depth,[32 numbers]]}`: an array of exactly two); `ExtraField(Vec<SubField>)` is a newtype struct, i.e. its
+content. Values are those of `Model/Extra.lean` (`Monero.Extra.SubField`). -/
+
+def publicKeyJ (k : Bytes) : Json := .obj [("point", bytesJ k)]
+def publicKeyFromJson (j : Json) : Option Bytes :=
+  match fieldsOf ["point"] 1 j with
+  | some [k] => req (readBytesN 32) k
+  | _ => none
+
+def subFieldNames : List String :=
+  ["TxPublicKey", "Nonce", "Padding", "MergeMining", "AdditionalPublickKey", "MysteriousMinerGate"]
+
+def subFieldJ : Extra.SubField → Json
+  | .txPub k => .obj [("TxPublicKey", publicKeyJ k)]
+  | .nonce n => .obj [("Nonce", bytesJ n)]
+  | .padding n => .obj [("Padding", natJ n)]
+  | .mergeMining d h => .obj [("MergeMining", .arr [natJ d, bytesJ h])]
+  | .addKeys ks => .obj [("AdditionalPublickKey", listJ publicKeyJ ks)]
+  | .minerGate d => .obj [("MysteriousMinerGate", bytesJ d)]
+def subFieldFromJson : Json → Option Extra.SubField
+  | .obj [(tag, c)] =>
+    if tag = "TxPublicKey" then (publicKeyFromJson c).map .txPub
+    else if tag = "Nonce" then (readByteVec c).map .nonce
+    else if tag = "Padding" then (readUInt 256 c).map .padding
+    else if tag = "MergeMining" then
+      match c with
+      | .arr [d, h] =>
+        match readUInt U64 d, readBytesN 32 h with
+        | some d, some h => some (.mergeMining d h)
+        | _, _ => none
+      | _ => none
+    else if tag = "AdditionalPublickKey" then (readVec publicKeyFromJson c).map .addKeys
+    else if tag = "MysteriousMinerGate" then (readByteVec c).map .minerGate
+    else none
+  | _ => none
+
+/-- `ExtraField(pub Vec<SubField>)` -/
+def extraFieldJ (fs : List Extra.SubField) : Json := listJ subFieldJ fs
+def extraFieldFromJson : Json → Option (List Extra.SubField) := readVec subFieldFromJson
+
+/-- the values of the Rust type `SubField`: `PublicKey` = 32 bytes (any), `Padding(u8)`, `VarInt(u64)`, `Hash` = 32 bytes -/
+def wfSubField : Extra.SubField → Prop
+  | .txPub k => k.length = 32
+  | .nonce _ => True
+  | .padding n => n < 256
+  | .mergeMining d h => d < U64 ∧ h.length = 32
+  | .addKeys ks => ∀ k ∈ ks, k.length = 32
+  | .minerGate _ => True
 
 /-! ## `amount::serde` — `as_pico` / `as_xmr`, each plain, `opt`, `slice` + `vec`
 
